@@ -45,7 +45,7 @@ def check_texts(texts_types: list, *, parallel=8, stats=None, coverage=False):
     if n == 0:
         return res
     idx = list(range(n))
-    nsh = max(1, min(parallel, (n + 499) // 500))
+    nsh = max(1, (n + 599) // 600)
     shards = [idx[i::nsh] for i in range(nsh)]
     runs = [dict(main="PumlSyntax", cfg=CFG, data=_data([docs[i] for i in s]), modules=MODULES, workers=1,
                  coverage=coverage, allow_violation=False) for s in shards]
